@@ -25,11 +25,13 @@ PROPERTY = "C15"
 FUNCTIONS = ["evo.main_traj.run", "main_traj.load_trajectories", "to_filestem", "file_interface.read_tum_trajectory_file / read_kitti_poses_file",
              "load_transform", "lie_algebra.sim3_inverse", "PosePath3D.downsample / motion_filter / transform / project / align / align_origin",
              "trajectory.merge", "sync.associate_trajectories"]
-BOUNDS = {"quick": "1..2 trajectories + optional reference, N = 2..3 poses each, a fixed list of 16 option sets covering every option and the "
-                   "order-sensitive pairs", "thorough": "more option pairs, Umeyama alignment with the SVD stub"}
+BOUNDS = {"quick": "1..2 trajectories + optional reference, N = 2..3 poses each, a fixed list of 19 option sets covering every option and the "
+                   "order-sensitive pairs", "thorough": "4 more option sets: down-sampling then "
+                   "motion filter, merge then time offset, origin alignment then projection, inverted Sim(3) propagation"}
 STUBS = ["main_traj.print_traj_info has an empty body (log formatting)", "text cells for the input files; writers captured (file I/O itself is C06/C07)", "SVD/eigh/sqrt/acos*/atan2 stubs"]
 ASSUMPTIONS = ["valid input files"]
-OUTSIDE = ["bag I/O", "plotting", "--save_table", "full_check printing"]
+OUTSIDE = ["bag I/O", "plotting", "--save_table", "full_check printing", "--align / --correct_scale wiring inside evo_traj (Umeyama on the driver path did not finish within 20 min; "
+           "align() itself is C04, its wiring in evo_ape/evo_rpe is C04/C01)", "--n_to_align", "--t_max_diff other than the default"]
 MODS = ("evo.main_traj", "evo.tools.file_interface")
 
 
@@ -57,7 +59,10 @@ OPTSETS = {
     "origin_then_transform": dict(align_origin=True, ref=True, transform="left"),
     "project_ref_too": dict(project="xy", ref=True, n=1),
     "two_trajectories_transform": dict(transform="left", invert=True, ntraj=2),
-    "align_then_transform": dict(align=True, ref=True, transform="left", n=3, thorough=True),
+    "downsample_then_motion_filter": dict(downsample=2, motion_filter=True, n=3, thorough=True),
+    "merge_then_t_offset": dict(merge=True, t_offset=True, ntraj=2, thorough=True),
+    "origin_then_project": dict(align_origin=True, ref=True, project="xy", n=1, thorough=True),
+    "transform_right_inverted_sim3_propagate": dict(transform="right", invert=True, sim3=True, propagate=True, thorough=True),
 }
 
 
@@ -275,7 +280,7 @@ def run_run(case, col):
                 g["export_equals_input_without_options"] = z3.And(eqs)
             else:
                 g["export_equals_input_without_options"] = z3.BoolVal(False)
-        if o.get("transform") and o.get("invert") and captured:
+        if o.get("transform") and o.get("invert") and captured and not o.get("propagate"):
             # the applied matrix is the true inverse of the loaded one: exported pose = T^-1 * P (left) / P * T^-1 (right)
             Rz = zR(Tm.q[0])
             Rt = zT(Rz)
